@@ -1238,6 +1238,19 @@ func (repo *Repository) load(ctx context.Context, depth int) error {
 	// branches were saved before the longest branch was consolidated into the main branch.
 	pruneHeight := loadedBranches.Longest().Height() - depth
 
+	// Keep the headers that the branches that will be kept link to, like prune does, otherwise a
+	// branch that forked below the prune height, which can be the longest branch, can't be linked.
+	for lowered := true; lowered; {
+		lowered = false
+		for _, branch := range loadedBranches {
+			if branch.parentHeight != -1 && branch.Height() >= pruneHeight &&
+				branch.parentHeight < pruneHeight {
+				pruneHeight = branch.parentHeight
+				lowered = true
+			}
+		}
+	}
+
 	branches := make(Branches, 0, indexCount)
 	for _, branch := range loadedBranches {
 		if branch.Height() < pruneHeight {
